@@ -123,7 +123,10 @@ func refRun(env *Env, w *world.World, o RefOpts) (*Ref, error) {
 	return ref, nil
 }
 
-// dirHash fingerprints a database directory (all files, names included).
+// dirHash fingerprints a database directory: the database file by content,
+// journal / WAL / shm by size only (SQLite puts random nonces and salts into
+// journal and WAL headers, which would make equal images look different and
+// the evidence counts vary from run to run).
 func dirHash(dir string) string {
 	ents, _ := os.ReadDir(dir)
 	var names []string
@@ -135,7 +138,9 @@ func dirHash(dir string) string {
 	for _, n := range names {
 		b, _ := os.ReadFile(filepath.Join(dir, n))
 		fmt.Fprintf(h, "%s:%d:", n, len(b))
-		h.Write(b)
+		if strings.HasSuffix(n, ".v4") {
+			h.Write(b)
+		}
 	}
 	return hex.EncodeToString(h.Sum(nil)[:10])
 }
